@@ -78,21 +78,21 @@ theorem reverse_err_iff (l : Bits) (s e : Option Int) :
 
 /-! ### rol / ror -/
 
-/-- `_rol_msb0`: slice the first `r` bits of the range, `_delete` them, `_insert` them at `end - r` — this is the
-    left rotation of `l[a:z]` by `bits mod (z - a)`.  Known deviation: an empty range (`bits %= 0`). -/
-theorem rol_eq_spec_partial (l : Bits) (k : Int) (s e : Option Int) (h : rotEmptyRange l k s e = false) :
-    Alg.rol l k s e = Spec.rol l k s e := alg_rol_eq l k s e h
+/-- `_rol_msb0`: (empty range: nothing to do) slice the first `r` bits of the range, `_delete` them, `_insert` them at
+    `end - r` — this is the left rotation of `l[a:z]` by `bits mod (z - a)`. -/
+theorem rol_eq_spec (l : Bits) (k : Int) (s e : Option Int) :
+    Alg.rol l k s e = Spec.rol l k s e := alg_rol_eq l k s e
 
 /-- `_ror_msb0`: slice the last `r` bits of the range, `_delete` them, `_insert` them at `start`. -/
-theorem ror_eq_spec_partial (l : Bits) (k : Int) (s e : Option Int) (h : rotEmptyRange l k s e = false) :
-    Alg.ror l k s e = Spec.ror l k s e := alg_ror_eq l k s e h
+theorem ror_eq_spec (l : Bits) (k : Int) (s e : Option Int) :
+    Alg.ror l k s e = Spec.ror l k s e := alg_ror_eq l k s e
 
-theorem rot_empty_range_witness :
-    (∃ err, Alg.rol [true, true, false, true, false, false] 2 (some 1) (some 1) = .error err) ∧
-    (∃ err, Alg.ror [true, true, false, true, false, false] 2 (some 1) (some 1) = .error err) ∧
-    Spec.rol [true, true, false, true, false, false] 2 (some 1) (some 1) = .ok [true, true, false, true, false, false] ∧
-    Spec.ror [true, true, false, true, false, false] 2 (some 1) (some 1) = .ok [true, true, false, true, false, false] := by
-  exact ⟨⟨_, rfl⟩, ⟨_, rfl⟩, by decide, by decide⟩
+/-- An empty range of a non-empty bitstring is a valid range and nothing moves (no `bits %= 0`). -/
+theorem rot_empty_range (l : Bits) (k : Int) (a : Nat) (hl : l ≠ []) (hk : 0 ≤ k) (ha : a ≤ l.length) :
+    Alg.rol l k (some (a : Int)) (some (a : Int)) = .ok l ∧ Alg.ror l k (some (a : Int)) (some (a : Int)) = .ok l := by
+  have hv := validateSlice_nonneg l.length a a (le_refl _) ha
+  rw [alg_rol_eq, alg_ror_eq, spec_rol_ok l k _ _ a a hl hk hv, spec_ror_ok l k _ _ a a hl hk hv]
+  simp [slc_self]
 
 theorem rol_length (l r : Bits) (k : Int) (s e : Option Int) (h : Spec.rol l k s e = .ok r) : r.length = l.length := by
   obtain ⟨hl, hk, a, z, hv, haz, hz⟩ := spec_rol_inv h
@@ -419,7 +419,7 @@ theorem invert_all_involutive (l : Bits) : (Spec.invert (Spec.invert l .all).bit
   simp [Function.comp_def]
 
 /-! ### non-vacuity -/
-example : rotEmptyRange [true, false, false] 4 (some 1) none = false ∧
+example : Alg.rol [true, true, false, true, false, false] 2 (some 1) (some 1) = .ok [true, true, false, true, false, false] ∧
     Alg.rol [true, false, false] 4 (some 1) none = .ok [true, false, false] ∧
     Alg.rol [true, false, true, true] 5 (some (-3)) none = .ok [true, true, false, true] := by decide
 example : Alg.reverse [true, false, false, true, true] (some 1) (some (-1)) = .ok [true, true, false, false, true] := by decide
